@@ -232,12 +232,12 @@ def run_model(ops_path):
     return p.stdout.splitlines()
 
 
-def run_impl_replay(ops_lines, tag="replay"):
+def run_impl_replay(ops_lines, tag="replay", env=None):
     os.makedirs(WORK, exist_ok=True)
     path = os.path.join(WORK, "%s_%d.ops" % (tag, os.getpid()))
     with open(path, "w") as f:
         f.write("\n".join(ops_lines) + "\n")
-    p = sh([HARNESS, "run", "-ops", path], env=GOENV, timeout=600)
+    p = sh([HARNESS, "run", "-ops", path], env=dict(GOENV, **(env or {})), timeout=600)
     if p.returncode not in (0, 3):
         raise MachineryError("harness run failed: " + (p.stderr or p.stdout)[-2000:])
     return p.stdout.splitlines(), path
